@@ -187,12 +187,6 @@ theorem mem_topoCleanup {t : List TopoRow} {p : String} {v : Svc} {e : SvcX} {r'
         · simp at hf; subst hf; exact ⟨r, hr, rfl, rfl⟩
       · simp at hf; subst hf; exact ⟨r, hr, rfl, rfl⟩
 
-/-- the keys `updateMeshTopology` deletes: upstreams the existing row had and the request does not name -/
-def droppedKeys (q : SvcReq) (existing : Option (Svc × SvcX)) : List String :=
-  match existing with
-  | some r => (r.2.ups.filter fun u => !q.ups.contains u).map fun u => pk2 u q.dest
-  | none => []
-
 theorem topoEnsure_spec (t : List TopoRow) (idx : Nat) (node : String) (q : SvcReq) (ex : Option (Svc × SvcX))
     (hc : q.kind = .connectProxy ∨ q.native = true) :
     (∀ r ∈ topoEnsure t idx node q ex, r ∈ t ∨ ∃ u ∈ q.ups, r.pk = pk2 u q.dest) ∧
@@ -205,7 +199,7 @@ theorem topoEnsure_spec (t : List TopoRow) (idx : Nat) (node : String) (q : SvcR
   have hd := dropLoop q.ups q.dest (match ex with | some r => r.2.ups | none => [])
     (q.ups.foldl (fun t u => topoAddRef t idx u q.dest (uidOf node q.id)) t)
   have hdk : droppedKeys q ex = ((match ex with | some r => r.2.ups | none => []).filter fun u => !q.ups.contains u).map fun u => pk2 u q.dest := by
-    unfold droppedKeys; cases ex <;> rfl
+    unfold droppedKeys; rw [if_pos hc]; cases ex <;> rfl
   refine ⟨?_, ?_, ?_⟩
   · intro r hr
     exact a1 r ((hd r).mp hr).1
@@ -435,8 +429,7 @@ theorem gi_ensureService (hGn : ∀ n ∈ Gn, NF n) {g g' : GState} {p node : St
       have hstale : ∀ k, k ∈ g.gh.staleTopo → k ∈ (ghostEnsure g.gh x' g.t.topo (ensureHooks g.t g.x p idx node q).topo q ex).staleTopo :=
         fun k hk' => List.mem_append_left _ hk'
       -- a candidate key: declared in the new state, or listed
-      have cand : r.pk ∈ ((if (q.kind = .connectProxy ∨ q.native = true) ∧ q.kind ≠ .connectProxy then q.ups.map fun u => pk2 u q.dest else []) ++
-          (match ex with | some r => pairsOf r | none => [])) →
+      have cand : r.pk ∈ staleCands q ex →
           Decl x' r.pk ∨ r.pk ∈ (ghostEnsure g.gh x' g.t.topo (ensureHooks g.t g.x p idx node q).topo q ex).staleTopo := by
         intro hc
         cases hsd : sidecarDeclared x' r.pk with
@@ -454,6 +447,7 @@ theorem gi_ensureService (hGn : ∀ n ∈ Gn, NF n) {g g' : GState} {p node : St
         · rcases decl_keep r.pk hd with h1 | ⟨r0, hr0, hd0⟩
           · exact Or.inl h1
           · apply cand
+            unfold staleCands
             apply List.mem_append_right
             rw [hr0]
             exact mem_pairsOf.mpr hd0
@@ -461,47 +455,219 @@ theorem gi_ensureService (hGn : ∀ n ∈ Gn, NF n) {g g' : GState} {p node : St
       · by_cases hkp : q.kind = .connectProxy
         · rw [hkr]; exact Or.inl (newdecl hkp u hu)
         · apply cand
+          unfold staleCands
           apply List.mem_append_left
           rw [if_pos ⟨hc, hkp⟩, hkr]
           exact List.mem_map.mpr ⟨u, hu, rfl⟩
     · -- completeness or known
       intro rr hrr hkp hout hnf u hu
-      cases hT : hasTopo (ensureHooks g.t g.x p idx node q).topo (pk2 u rr.2.dest) with
+      generalize hkk : pk2 u rr.2.dest = k
+      cases hT : hasTopo (ensureHooks g.t g.x p idx node q).topo k with
       | true => exact Or.inl rfl
       | false =>
         right
-        have hloc : localDeclared x' (pk2 u rr.2.dest) = true :=
-          localDeclared_iff.mpr ⟨rr, hrr, declares_iff.mpr ⟨hkp, u, hu, rfl⟩⟩
-        have fin : pk2 u rr.2.dest ∈ (if q.kind = .connectProxy ∨ q.native = true then droppedKeys q ex else []) ++
-            (g.t.topo.filter fun row => !hasTopo (ensureHooks g.t g.x p idx node q).topo row.pk).map TopoRow.pk →
-            pk2 u rr.2.dest ∈ (ghostEnsure g.gh x' g.t.topo (ensureHooks g.t g.x p idx node q).topo q ex).lostTopo := by
+        have hloc : localDeclared x' k = true :=
+          localDeclared_iff.mpr ⟨rr, hrr, declares_iff.mpr ⟨hkp, u, hu, hkk⟩⟩
+        have fin : k ∈ droppedKeys q ex ++ goneKeys g.t.topo (ensureHooks g.t g.x p idx node q).topo →
+            k ∈ (ghostEnsure g.gh x' g.t.topo (ensureHooks g.t g.x p idx node q).topo q ex).lostTopo := by
           intro hc
           unfold ghostEnsure
           simp only
           apply List.mem_append_right
           rw [List.mem_filter]
-          refine ⟨?_, by rw [hT, hloc]; rfl⟩
-          unfold droppedKeys at hc
-          exact hc
+          exact ⟨hc, by rw [hT, hloc]; rfl⟩
         rcases locrows rr hrr with ⟨hp, hnew⟩ | hold
         · subst hnew
           have hconn : q.kind = .connectProxy ∨ q.native = true := Or.inl (by rw [← hattr.2.2]; exact hkp)
           have hu' : u ∈ q.ups := by rw [← hattr.2.1]; exact hu
-          simp only [hattr.1] at hT ⊢ fin
+          have hkk' : pk2 u q.dest = k := by rw [← hattr.1]; exact hkk
           apply fin
           apply List.mem_append_left
-          rw [if_pos hconn]
           apply Classical.byContradiction
           intro hnd
-          rw [tadd u hu' hconn hnd] at hT
-          cases hT
+          have := tadd u hu' hconn (by rw [hkk']; exact hnd)
+          rw [hkk', hT] at this
+          cases this
         · rcases h.complete rr hold hkp hout hnf u hu with h1 | h1
           · apply fin
             apply List.mem_append_right
+            rw [hkk] at h1
             obtain ⟨r0, hr0, hk0⟩ := hasTopo_iff.mp h1
+            unfold goneKeys
             refine List.mem_map.mpr ⟨r0, List.mem_filter.mpr ⟨hr0, ?_⟩, hk0⟩
             rw [hk0, hT]; rfl
-          · exact List.mem_append_left _ h1
+          · rw [hkk] at h1; exact List.mem_append_left _ h1
+
+/-- the rows after `deleteServiceX` -/
+theorem deleteServiceX_rows {s s' : XState} {p node id : String} {idx : Nat} (h : deleteServiceX s p idx node id = .ok s')
+    (hsrt : SortedBy Svc.pk (s.cat p).st.svcs) :
+    (s' = s ∧ svcFind (s.cat p).st node id = none) ∨ ∃ v e, svcFind (s.cat p).st node id = some v ∧ extFind (s.cat p) node id = some e ∧
+      (∀ r ∈ (s.cat p).rows, r.1.pk = pk2 node id → r = (v, e)) ∧
+      (∀ r, r ∈ (s'.cat p).rows ↔ r ∈ (s.cat p).rows ∧ r.1.pk ≠ pk2 node id) ∧
+      (∀ q', ¬ samePeer p q' → s'.cat q' = s.cat q') := by
+  have h0 := h
+  unfold deleteServiceX at h0
+  simp only at h0
+  cases hv : svcFind (s.cat p).st node id with
+  | none => rw [hv] at h0; simp at h0; exact Or.inl ⟨h0.symm, rfl⟩
+  | some v =>
+    right
+    rcases deleteServiceX_spec h with hs | ⟨v', e, st', hv', he, hsv, rfl⟩
+    · -- the state did not change although the row exists: impossible (the row is gone from the result)
+      rw [hv] at h0
+      cases he : extFind (s.cat p) node id with
+      | none => rw [he] at h0; simp at h0
+      | some e =>
+        rw [he] at h0
+        simp only at h0
+        cases hd : deleteService (s.cat p).st idx node id with
+        | error er => rw [hd] at h0; simp at h0
+        | ok st' =>
+          rw [hd] at h0
+          simp only at h0
+          injection h0 with h0
+          have hrow := (rows_find hsrt hv he).1
+          have hsv := (deleteService_spec hd).2.1
+          have hcat : ((s.setCat p ⟨st', terase SvcX.pk (pk2 node id) (s.cat p).ext⟩).cat p) = ⟨st', terase SvcX.pk (pk2 node id) (s.cat p).ext⟩ :=
+            cat_setCat_self _ _ _
+          have hfr := (xframe_afterServiceDelete (s.setCat p ⟨st', terase SvcX.pk (pk2 node id) (s.cat p).ext⟩) p v e).cat p
+          rw [h0, hs, hcat] at hfr
+          have : (v, e) ∈ (s.cat p).rows ∧ (v, e).1.pk ≠ pk2 node id := by
+            rw [← rows_del st' _ hsv (v, e), ← hfr]; exact hrow
+          exact absurd (tfind_some hv).2 this.2
+    · rw [hv] at hv'
+      injection hv' with hv'
+      subst hv'
+      obtain ⟨_, huniq⟩ := rows_find hsrt hv he
+      have hfr := xframe_afterServiceDelete (s.setCat p ⟨st', terase SvcX.pk (pk2 node id) (s.cat p).ext⟩) p v e
+      refine ⟨v, e, rfl, he, huniq, ?_, ?_⟩
+      · intro r
+        rw [hfr.cat p, cat_setCat_self]
+        exact rows_del st' _ hsv r
+      · intro q' hq'
+        rw [hfr.cat q', cat_setCat_other _ _ hq']
+
+theorem gi_deleteService (hGn : ∀ n ∈ Gn, NF n) {g g' : GState} {p node id : String} {idx : Nat}
+    (he : deleteServiceG g p idx node id = .ok g') (h : GI Gn g) : GI Gn g' := by
+  unfold deleteServiceG at he
+  cases hx : deleteServiceX g.x p idx node id with
+  | error e => rw [hx] at he; simp at he
+  | ok x' =>
+    rw [hx] at he
+    simp only at he
+    have hd' := dinv_deleteService hx h.dinv
+    rcases deleteServiceX_rows hx (h.dinv.side.srt p) with ⟨rfl, hnone⟩ | ⟨v, e, hv, hex, huniq, hrows, hother⟩
+    · rw [hnone] at he
+      simp only at he
+      injection he with he
+      subst he
+      exact h
+    · rw [hv, hex] at he
+      simp only at he
+      injection he with he
+      subst he
+      -- the tables
+      have ok1 : TOk Gn (GTabs.mk g.t.gw (topoCleanup g.t.topo p v e)) :=
+        ⟨h.tok.names, fun r hr => by
+          obtain ⟨r0, hr0, _, hdn⟩ := mem_topoCleanup hr
+          rw [← hdn]; exact h.tok.nf r0 hr0⟩
+      have s2 : TStep Gn (GTabs.mk g.t.gw (topoCleanup g.t.topo p v e)) (deleteHooks g.t x' p idx v e) := by
+        unfold deleteHooks
+        simp only
+        have a : TStep Gn (GTabs.mk g.t.gw (topoCleanup g.t.topo p v e))
+            (if p = "" ∧ (e.kind = .connectProxy ∨ e.native = true) then
+              (if hasConnectInstance x'.loc (if e.kind = .connectProxy then e.dest else v.name) = true then
+                (GTabs.mk g.t.gw (topoCleanup g.t.topo p v e))
+               else gwCleanup (GTabs.mk g.t.gw (topoCleanup g.t.topo p v e)) x' idx (if e.kind = .connectProxy then e.dest else v.name) false)
+             else (GTabs.mk g.t.gw (topoCleanup g.t.topo p v e))) := by
+          repeat' split
+          all_goals first | exact TStep.refl ok1 | exact tstep_gwCleanup hGn ok1 x' idx _ false
+        split
+        · exact a.trans (tstep_gwCleanup hGn a.ok x' idx v.name false)
+        · exact a
+      have tmem : ∀ r ∈ (deleteHooks g.t x' p idx v e).topo, lc r.dn ∉ Gn → ∃ r0 ∈ g.t.topo, r0.pk = r.pk ∧ r0.dn = r.dn := by
+        intro r hr hout
+        exact mem_topoCleanup ((s2.out r hout).mp hr)
+      have decl_keep : ∀ k, Decl g.x k → Decl x' k ∨ declares k (v, e) = true := by
+        rintro k ⟨q0, r0, hr0, hd0⟩
+        by_cases hsp : samePeer p q0
+        · rw [cat_of_samePeer g.x hsp] at hr0
+          by_cases hkey : r0.1.pk = pk2 node id
+          · rw [huniq r0 hr0 hkey] at hd0; exact Or.inr hd0
+          · exact Or.inl ⟨p, r0, (hrows r0).mpr ⟨hr0, hkey⟩, hd0⟩
+        · exact Or.inl ⟨q0, r0, by rw [hother q0 hsp]; exact hr0, hd0⟩
+      have locrows : ∀ rr ∈ x'.loc.rows, rr ∈ g.x.loc.rows := by
+        intro rr hrr
+        rw [loc_eq_cat] at hrr ⊢
+        by_cases hp : p = ""
+        · subst hp; exact ((hrows rr).mp hrr).1
+        · rw [hother "" (not_samePeer_empty hp)] at hrr; exact hrr
+      refine ⟨hd', s2.ok, ?_, ?_⟩
+      · intro r hr hout
+        obtain ⟨r0, hr0, hk0, hdn0⟩ := tmem r hr hout
+        rcases h.sound r0 hr0 (by rw [hdn0]; exact hout) with hd | hs
+        · rcases decl_keep r0.pk hd with h1 | h1
+          · rw [← hk0]; exact Or.inl h1
+          · cases hsd : sidecarDeclared x' r.pk with
+            | true => exact Or.inl (sidecarDeclared_iff.mp hsd)
+            | false =>
+              right
+              unfold ghostDelete
+              simp only
+              apply List.mem_append_right
+              rw [List.mem_filter]
+              refine ⟨by rw [← hk0]; exact mem_pairsOf.mpr h1, ?_⟩
+              rw [hsd, hasTopo_iff.mpr ⟨r, hr, rfl⟩]; rfl
+        · right
+          unfold ghostDelete
+          rw [← hk0]
+          exact List.mem_append_left _ hs
+      · intro rr hrr hkp hout hnf u hu
+        generalize hkk : pk2 u rr.2.dest = k
+        cases hT : hasTopo (deleteHooks g.t x' p idx v e).topo k with
+        | true => exact Or.inl rfl
+        | false =>
+          right
+          have hloc : localDeclared x' k = true :=
+            localDeclared_iff.mpr ⟨rr, hrr, declares_iff.mpr ⟨hkp, u, hu, hkk⟩⟩
+          rcases h.complete rr (locrows rr hrr) hkp hout hnf u hu with h1 | h1
+          · rw [hkk] at h1
+            obtain ⟨r0, hr0, hk0⟩ := hasTopo_iff.mp h1
+            unfold ghostDelete
+            simp only
+            apply List.mem_append_right
+            rw [List.mem_filter]
+            refine ⟨?_, by rw [hT, hloc]; rfl⟩
+            unfold goneKeys
+            refine List.mem_map.mpr ⟨r0, List.mem_filter.mpr ⟨hr0, ?_⟩, hk0⟩
+            rw [hk0, hT]; rfl
+          · rw [hkk] at h1
+            unfold ghostDelete
+            exact List.mem_append_left _ h1
+
+/-- the invariant is closed under every G-level function -/
+theorem gi_closed (hGn : ∀ n ∈ Gn, NF n) (hnil : "" ∉ Gn) : GClosed (WG Gn) (WcG Gn) (GI Gn) where
+  aux := fun g x' hv h => gi_aux g x' hv h
+  setSt := fun g p st' hs h => gi_setSt g p st' hs h
+  ensureService := fun hw he h => gi_ensureService hGn hw he h
+  deleteService := fun he h => gi_deleteService hGn he h
+  configUpsert := fun hw hc h => gi_configUpsert hGn hw hc h
+  configDelete := fun g idx kind name hw h => gi_configDelete hGn g idx kind name hw h
+  typical := fun x => ⟨⟨by simp [typicalReq], by simp [typicalReq]⟩, by
+    show NF (typicalReq x).dest
+    unfold typicalReq NF lc; simp, by
+    show lc (typicalReq x).dest ∉ Gn
+    have : (typicalReq x).dest = "" := rfl
+    rw [this, lc_eq_empty.mpr rfl]; exact hnil⟩
+
+theorem GI.empty : GI Gn GState.empty := by
+  refine ⟨DInv.empty, ⟨by simp [GState.empty], by simp [GState.empty]⟩, by simp [GState.empty], ?_⟩
+  intro rr hrr
+  simp [GState.empty, Cat.rows] at hrr
+
+theorem gi_replayG (hGn : ∀ n ∈ Gn, NF n) (hnil : "" ∉ Gn) (log : XLog) (hw : XLog.gOk (WG Gn) (WcG Gn) log) :
+    GI Gn (replayG GState.empty log) :=
+  gc_replayG (gi_closed hGn hnil) log _ hw GI.empty
 
 end Inv
 
